@@ -16,17 +16,25 @@ package drummer
 // back: the requests (every field the DB stores), or the error, or the panic.
 // Each returned request is additionally passed to the real
 // validateNodeHostRequest under recover().
+// Before the launch the real server.validateRegions (what SetRegions runs on the
+// request before persisting it) is called under recover() on the pb.Regions
+// message and THE SAME message object is then the launch specification: the
+// verdict, the message as it is afterwards and the plan are all printed, so a
+// validator that touches the message shows up in the plan.
+// Hosts may carry PersistentLog records ("p": [[shard, replica], ...]).
 //
 // Unexported identifiers this file depends on (a rename = harness does not
 // build = broken correspondence, reported as such): scheduler{randomSrc, tick,
 // nodeHostList, shards, regions}, nodeHostSpec{Address, Region, Tick, Shards},
-// (*scheduler).launch, validateNodeHostRequest, nodeHostTTL.
+// nodeHostSpec.PersistentLog, (*scheduler).launch, validateNodeHostRequest,
+// validateRegions, nodeHostTTL.
 //
-// Input line:  {"tick":T,"hosts":[{"a":addr,"r":region,"t":tick,"s":[shard ids]}],
+// Input line:  {"tick":T,"hosts":[{"a":addr,"r":region,"t":tick,"s":[shard ids],"p":[[shard,replica]..]}],
 //               "shards":[{"id":I,"app":name,"m":[member ids]}],
 //               "regions":null|{"r":[names],"c":[counts]},"draws":[ints]}
 // Output:      first line {"ttl":nodeHostTTL}; then one line per case
 //              {"o":"plan"|"err"|"panic"|"ood","msg":..,"used":draws consumed,"nilreqs":bool,
+//               "vr":"ok"|"err"|"panic"|"-" (validateRegions verdict),"vrmsg":..,"ra":[names after],"rc":[counts after],
 //               "reqs":[{"t":type,"sid":..,"cm":[..],"cc":..,"rids":[..],"addrs":[..],
 //                        "inst":..,"raft":..,"join":..,"restore":..,"app":..,"v":validated,"cfg":config present}]}
 
@@ -65,10 +73,11 @@ func (s *vlScripted) Int() int       { return int(s.next() & 0x7fffffffffffffff)
 var _ random.Source = (*vlScripted)(nil)
 
 type vlHost struct {
-	A string   `json:"a"`
-	R string   `json:"r"`
-	T uint64   `json:"t"`
-	S []uint64 `json:"s"`
+	A string     `json:"a"`
+	R string     `json:"r"`
+	T uint64     `json:"t"`
+	S []uint64   `json:"s"`
+	P [][]uint64 `json:"p"`
 }
 
 type vlShard struct {
@@ -107,11 +116,15 @@ type vlReq struct {
 }
 
 type vlOut struct {
-	O       string  `json:"o"`
-	Msg     string  `json:"msg"`
-	Used    int     `json:"used"`
-	NilReqs bool    `json:"nilreqs"`
-	Reqs    []vlReq `json:"reqs"`
+	O       string   `json:"o"`
+	Msg     string   `json:"msg"`
+	Used    int      `json:"used"`
+	NilReqs bool     `json:"nilreqs"`
+	VR      string   `json:"vr"`
+	VRMsg   string   `json:"vrmsg"`
+	RA      []string `json:"ra"`
+	RC      []uint64 `json:"rc"`
+	Reqs    []vlReq  `json:"reqs"`
 }
 
 func vlValidate(r *pb.NodeHostRequest) (ok bool) {
@@ -133,6 +146,12 @@ func vlRun(c *vlCase) (out vlOut) {
 		for _, sid := range h.S {
 			spec.Shards[sid] = struct{}{}
 		}
+		spec.PersistentLog = make([]*pb.LogInfo, 0)
+		for _, p := range h.P {
+			if len(p) == 2 {
+				spec.PersistentLog = append(spec.PersistentLog, &pb.LogInfo{ShardId: p[0], ReplicaId: p[1]})
+			}
+		}
 		s.nodeHostList = append(s.nodeHostList, spec)
 	}
 	s.shards = make([]*pb.Shard, 0)
@@ -143,6 +162,26 @@ func vlRun(c *vlCase) (out vlOut) {
 	}
 	if c.Regions != nil {
 		s.regions = &pb.Regions{Region: append([]string{}, c.Regions.R...), Count: append([]uint64{}, c.Regions.C...)}
+	}
+	// the real request validation of SetRegions, on the very message the launch will read
+	func() {
+		defer func() {
+			if e := recover(); e != nil {
+				out.VR = "panic"
+				out.VRMsg = fmt.Sprintf("%v", e)
+			}
+		}()
+		if verr := validateRegions(s.regions); verr != nil {
+			out.VR = "err"
+			out.VRMsg = verr.Error()
+		} else {
+			out.VR = "ok"
+		}
+	}()
+	out.RA, out.RC = []string{}, []uint64{}
+	if s.regions != nil {
+		out.RA = append(out.RA, s.regions.Region...)
+		out.RC = append(out.RC, s.regions.Count...)
 	}
 	var reqs []*pb.NodeHostRequest
 	var err error
